@@ -77,7 +77,7 @@ def _parse(out, res):
 
 
 def run(module, cfg_text, workdir, env=None, workers=16, timeout=600, simulate=None,
-        coverage=False, xmx="12g", depth_first=False, seed=None, name=None, on_msg=None):
+        coverage=False, xmx="12g", depth_first=False, seed=None, name=None, on_msg=None, extra_args=None):
     """Run TLC on spec/<module>.tla with the given cfg text.  Returns TLCResult.
     Raises TLCError on machinery failure."""
     os.makedirs(workdir, exist_ok=True)
@@ -97,6 +97,8 @@ def run(module, cfg_text, workdir, env=None, workers=16, timeout=600, simulate=N
         cmd += ["-simulate", simulate]
     if seed is not None:
         cmd += ["-seed", str(seed)]
+    if extra_args:
+        cmd += list(extra_args)
     cmd.append(os.path.join(SPEC_DIR, module + ".tla"))
     e = dict(os.environ)
     e.pop("JAVA_TOOL_OPTIONS", None)
